@@ -171,7 +171,39 @@ func c09ErrVariants() []struct {
 		{"context.Canceled", context.Canceled},
 		{"context.DeadlineExceeded", fmt.Errorf("transport: %w", context.DeadlineExceeded)},
 		{"grpc-status", status.Error(codes.Unavailable, "peer gone")},
+		// the transport's decoder fails: the protobuf decoder's own error (errors.Is(err, proto.Error)), raw and wrapped
+		{"proto-decode", protoDecodeErr()},
+		{"wrapped-proto-decode", fmt.Errorf("transport: cannot decode envelope: %w", protoDecodeErr())},
+		{"proto-decode-once", protoDecodeErr()},
+		{"wrapped-proto-decode-once", fmt.Errorf("transport: cannot decode envelope: %w", protoDecodeErr())},
 	}
+}
+
+func protoDecodeErr() error {
+	err := proto.Unmarshal([]byte{0x0a, 0xff, 0xff, 0xff}, &goatorepo.Rpc{})
+	if err == nil {
+		panic("garbage decoded")
+	}
+	return err
+}
+
+// failingReads is the transport of TestC09Errors: once its Read has begun to fail it fails `limit` times (a persistent
+// failure returns the same error to every Read; a reader that does not stop at the first one would spin for ever, so
+// after `limit` failed reads - 1 for the "-once" variants: a failure that does not repeat - the next Read waits for its
+// context like a healthy idle transport). The connection has to be given up at the FIRST failed Read.
+type failingReads struct {
+	*Endpoint
+	limit  int64
+	failed atomic.Int64
+}
+
+func (f *failingReads) Read(ctx context.Context) (*Rpc, error) {
+	r, err := f.Endpoint.Read(ctx)
+	if err != nil && ctx.Err() == nil && f.failed.Add(1) > f.limit {
+		<-ctx.Done()
+		return nil, ctx.Err()
+	}
+	return r, err
 }
 
 func resCode(err error) int {
@@ -208,7 +240,12 @@ func TestC09Errors(t *testing.T) {
 					if withStats {
 						opts = append(opts, goat.WithStatsHandler(&recStats{}))
 					}
-					cc := goat.NewClientConn(ep, "src", "dst", opts...)
+					rw := &failingReads{Endpoint: ep, limit: 3000}
+					if strings.HasSuffix(v.name, "-once") {
+						rw.limit = 1
+					}
+					cc := goat.NewClientConn(rw, "src", "dst", opts...)
+					defer cc.Close()
 					cs, err := cc.NewStream(context.Background(), descBidi, "/verif.Echo/Bidi")
 					if err != nil {
 						t.Fatal(err)
